@@ -202,6 +202,7 @@ def run_nonmarkov(spec, props=("C11",)):
         else:
             arrs = list(out)
         A.outcomes.add(hsh(mon.hist_of(out, nodes) if full else [a.tolist() for a in arrs]))
+        A.count["rows_checked"] = A.count.get("rows_checked", 0) + 1
         if len(delay) > 0:
             A.nontrivial.add(pre)
         A.states.add(hsh((sorted(delay.items()), sorted(duration.items()))))
@@ -353,6 +354,7 @@ def run_fast_sir(spec, props=("C01",)):
         out = r.out
         arrs = None if full else list(out)
         A.outcomes.add(hsh(mon.hist_of(out, nodes) if full else [a.tolist() for a in arrs]))
+        A.count["rows_checked"] = A.count.get("rows_checked", 0) + 1
         if len(delay) > 0:
             A.nontrivial.add(pre)
         A.states.add(hsh((sorted(delay.items()), sorted(duration.items()))))
